@@ -217,10 +217,10 @@ class Session:
         self.key = hashlib.sha256((self.gen + verus_version()).encode()).hexdigest()[:24]
         self.dir = os.path.join(CACHE, self.key)
         os.makedirs(self.dir, exist_ok=True)
-        # prune old cache entries (keep the 6 newest)
+        # prune old cache entries (keep the 16 newest)
         try:
             ents = sorted((os.path.getmtime(os.path.join(CACHE, d)), d) for d in os.listdir(CACHE))
-            for _, d in ents[:-6]:
+            for _, d in ents[:-16]:
                 shutil.rmtree(os.path.join(CACHE, d), ignore_errors=True)
         except Exception:
             pass
